@@ -17,6 +17,9 @@ type seededMeta struct {
 	DetectedBy []string `json:"detected_by"` // properties whose check reports this change
 	Kind       string   `json:"kind"`        // "mutant" (must be reported) | "refactor" (must stay silent)
 	Needs      string   `json:"needs"`
+	// refactors only: properties whose rule cannot decide the refactored construct (a documented limit, DESIGN §9.3):
+	// an alarm there is expected and says nothing about the tree
+	OutsideFragment []string `json:"outside_fragment"`
 }
 
 // SelfValidate applies every seeded change that concerns this property to a
@@ -35,7 +38,7 @@ func SelfValidate(prop, repo, verif string, rep *core.Report) {
 		Reported string `json:"reported,omitempty"`
 	}
 	var results []result
-	killed, mutants, silent, refactors := 0, 0, 0, 0
+	killed, mutants, silent, refactors, limits := 0, 0, 0, 0, 0
 	self, _ := os.Executable()
 	for _, m := range dirs {
 		b, err := os.ReadFile(m)
@@ -121,6 +124,12 @@ func SelfValidate(prop, repo, verif string, rep *core.Report) {
 					res.Outcome = "silent (as required)"
 				} else {
 					res.Outcome = "FALSE-ALARM on a behaviour-preserving refactor"
+					for _, o := range meta.OutsideFragment {
+						if o == prop {
+							res.Outcome = "alarm on a behaviour-preserving refactor — documented limit: the construct is outside this rule's fragment (DESIGN §9.3)"
+							limits++
+						}
+					}
 				}
 			case !expectHere:
 				if len(reported) > 0 {
@@ -144,7 +153,7 @@ func SelfValidate(prop, repo, verif string, rep *core.Report) {
 	rep.Extra["selfcheck"] = map[string]any{
 		"what":             "seeded changes applied to scratch copies of the current tree and re-analysed (evidence about the checker, not about /repo)",
 		"mutants_reported": killed, "mutants_total": mutants,
-		"refactors_silent": silent, "refactors_total": refactors,
+		"refactors_silent": silent, "refactors_total": refactors, "refactors_outside_fragment": limits,
 		"results": results,
 	}
 }
